@@ -94,6 +94,13 @@ type Case struct {
 	// AdapterWS "A"/"B" (bridge rig): that end is attached through the WebSocket transport adapter
 	// (internal/protocol/adapter wsServerConn over a loopback gorilla pair); one client Write = one message
 	AdapterWS string `json:"adapter_ws,omitempty"`
+	// RealEnd "A"/"B" (bridge rig): that end is a real RealProto ("tcp" / "quic") socket accepted by the
+	// server's own transport adapter on loopback; a QUIC client finishes its stream right after its last write
+	RealEnd   string `json:"real_end,omitempty"`
+	RealProto string `json:"real_proto,omitempty"`
+	// ReadPaceUs > 0: the end named by PauseEnd reads slowly: it sleeps this long per 16 KiB it has read
+	// (behind the PausePipe-bounded pipe), PauseMs may be 0
+	ReadPaceUs int `json:"read_pace_us,omitempty"`
 	// StorageOutage (session rig): every storage operation fails from the moment both ends are attached
 	StorageOutage bool `json:"storage_outage,omitempty"`
 	// StatsStall (bridge rig): traffic accounting is configured and its backend (CloudControl) hangs
@@ -121,6 +128,14 @@ func payload(n int, seed uint64) []byte {
 
 // expectedTransfer is the time the token bucket needs for all bytes of the case (both directions share it).
 func (c Case) expectedTransfer() time.Duration {
+	if c.ReadPaceUs > 0 {
+		n := c.LenAB
+		if c.PauseEnd == "A" {
+			n = c.LenBA
+		}
+		// nominal time of the paced reader (sleeps overshoot on a busy machine: the bound uses 4x this)
+		return time.Duration(n/16384+1) * time.Duration(c.ReadPaceUs) * time.Microsecond * 2
+	}
 	if c.Limit <= 0 {
 		return 0
 	}
@@ -181,6 +196,7 @@ type end struct {
 	tailGo chan struct{}
 	gap    time.Duration // pause after every write
 	pause  time.Duration // the reader starts reading only after this long
+	pace   time.Duration // the reader sleeps this long per 16 KiB read
 	abort  chan struct{} // closed at the end of the case
 	// closeOnEOF: a client that closes its connection when it reads EOF (needed where the server only
 	// half-closes towards it: cross-node forward)
@@ -226,6 +242,9 @@ func (e *end) reader() {
 			e.mu.Unlock()
 			off += n
 			e.recv.Store(int64(off))
+			if e.pace > 0 {
+				time.Sleep(e.pace * time.Duration(n+16383) / 16384)
+			}
 		}
 		if err != nil {
 			e.readErr = err
@@ -447,6 +466,7 @@ func runCase(c Case, boundScale int) (*failure, *obs) {
 	}
 	if pauseX != nil {
 		pauseX.pause = time.Duration(c.PauseMs) * time.Millisecond
+		pauseX.pace = time.Duration(c.ReadPaceUs) * time.Microsecond
 	}
 	if c.CrossNode {
 		A.closeOnEOF, B.closeOnEOF = true, true
@@ -676,6 +696,12 @@ func runCase(c Case, boundScale int) (*failure, *obs) {
 		if c.StorageOutage {
 			ctxs += "/storage-outage"
 		}
+		if c.RealEnd != "" {
+			ctxs += "/real-" + c.RealProto + "-end=" + c.RealEnd
+			if c.ReadPaceUs > 0 {
+				ctxs += "/slow-reader=" + c.PauseEnd
+			}
+		}
 		return "C02/loss/" + kind + "/" + l + "/" + dir + ctxs
 	}
 	state := func() string {
@@ -717,7 +743,7 @@ func runCase(c Case, boundScale int) (*failure, *obs) {
 				dir += "b->a"
 			}
 			where := r.name
-			if aS.reads.Load() == 0 && bS.reads.Load() == 0 && c.WSEnd == "" && c.AdapterWS == "" && !c.CrossNode {
+			if aS.reads.Load() == 0 && bS.reads.Load() == 0 && c.WSEnd == "" && c.AdapterWS == "" && c.RealEnd == "" && !c.CrossNode {
 				where += "/bridge-never-read-either-end"
 			}
 			if c.CrossNode {
@@ -860,6 +886,9 @@ func runCase(c Case, boundScale int) (*failure, *obs) {
 	if c.StorageOutage {
 		kindKey += "/storage-outage-at-teardown"
 	}
+	if c.RealEnd != "" {
+		kindKey += "/real-" + c.RealProto + "-end=" + c.RealEnd
+	}
 	// after the first close / failure: both ends observe closure within bounded time
 	if !waitFor(bound, func() bool { return isDone(A.readDone) && isDone(B.readDone) }) {
 		who := ""
@@ -942,10 +971,10 @@ func runCase(c Case, boundScale int) (*failure, *obs) {
 	}
 	// towards a WebSocket end the harness only sees what the client-side relay handed on, not what the
 	// server wrote into the socket
-	if c.WSEnd == "A" || c.AdapterWS == "A" {
+	if c.WSEnd == "A" || c.AdapterWS == "A" || c.RealEnd == "A" {
 		recvCtr = aS.BytesWritten() - baseA
 	}
-	if c.WSEnd == "B" || c.AdapterWS == "B" {
+	if c.WSEnd == "B" || c.AdapterWS == "B" || c.RealEnd == "B" {
 		sentCtr = bS.BytesWritten() - baseB
 	}
 	if got, want := sentCtr, bS.BytesWritten()-baseB; got != want {
@@ -957,7 +986,7 @@ func runCase(c Case, boundScale int) (*failure, *obs) {
 	// the server let go of both connections
 	// (an end behind a relay - WebSocket client, remote node - learns it a moment after the relay does)
 	grace := 10 * time.Millisecond
-	if c.WSEnd != "" || c.CrossNode || c.AdapterWS != "" {
+	if c.WSEnd != "" || c.CrossNode || c.AdapterWS != "" || c.RealEnd != "" {
 		grace = bound
 	}
 	if !waitFor(grace, func() bool { return aS.IsClosed() && bS.IsClosed() }) {
@@ -1009,7 +1038,7 @@ func capBucket(n int) string {
 }
 
 func caseSig(c Case) string {
-	return fmt.Sprintf("%v|%s|%s|%d|%s|%s|%v|%s|%s|%d|%d|%v", fmt.Sprint(c.Mini, c.SameClient, c.HeartbeatMs > 0, c.WSEnd, c.CrossNode, c.StatsStall, c.PauseMs > 0, c.AdapterWS, c.StorageOutage), sizeBucket(c.LenAB), sizeBucket(c.LenBA), c.Limit, c.Ending.Kind+c.Ending.ErrKind, c.Attach, c.Stream,
+	return fmt.Sprintf("%v|%s|%s|%d|%s|%s|%v|%s|%s|%d|%d|%v", fmt.Sprint(c.Mini, c.SameClient, c.HeartbeatMs > 0, c.WSEnd, c.CrossNode, c.StatsStall, c.PauseMs > 0, c.AdapterWS, c.StorageOutage, c.RealEnd, c.RealProto), sizeBucket(c.LenAB), sizeBucket(c.LenBA), c.Limit, c.Ending.Kind+c.Ending.ErrKind, c.Attach, c.Stream,
 		capBucket(c.SrvReadCapA), capBucket(c.SrvReadCapB), len(c.WritesAB), len(c.WritesBA), c.DataWithEOF)
 }
 
@@ -1163,6 +1192,9 @@ func check(t vkit.TB, c Case) {
 	}
 	if c.StorageOutage {
 		vkit.Class("feat:storage outage at tear-down")
+	}
+	if c.RealEnd != "" {
+		vkit.Class("feat:real " + c.RealProto + " end=" + c.RealEnd)
 	}
 	if c.StatsStall {
 		vkit.Class("feat:stats backend hangs at close")
@@ -1623,6 +1655,55 @@ func TestAdapterWebSocket(t *testing.T) {
 			c.Ending.K = rapid.IntRange(0, c.LenAB).Draw(t, "k")
 		case "early-close-B":
 			c.Ending.K = rapid.IntRange(0, c.LenBA).Draw(t, "k")
+		}
+		check(t, c)
+	})
+}
+
+// TestRealTransport: one end is a real socket accepted by the server's TcpAdapter / QuicAdapter.
+// tcp: the other end sends megabytes and closes gracefully while the TCP end reads slowly, so the
+// server's send queue towards it is full when the bridge closes that socket: everything must still
+// arrive before EOF. quic: the QUIC end sends and finishes its stream right behind the last write
+// (last bytes and FIN reach the server together): the last bytes must come out of the other end.
+func TestRealTransport(t *testing.T) {
+	property(t, 64, 480, func(t *rapid.T) {
+		c := Case{Stream: rapid.Bool().Draw(t, "stream"), Attach: rapid.SampledFrom([]string{"before-start", "after-start"}).Draw(t, "attach")}
+		c.RealProto = rapid.SampledFrom([]string{"tcp", "quic", "quic"}).Draw(t, "proto")
+		c.RealEnd = rapid.SampledFrom([]string{"A", "B"}).Draw(t, "end")
+		c.SeedAB = uint64(rapid.IntRange(0, 65535).Draw(t, "seedAB"))
+		c.SeedBA = uint64(rapid.IntRange(0, 65535).Draw(t, "seedBA"))
+		other := "B"
+		if c.RealEnd == "B" {
+			other = "A"
+		}
+		if c.RealProto == "tcp" {
+			// the TCP end is the slow reader, the other end floods and closes gracefully
+			flood := rapid.IntRange(2<<20, 6<<20).Draw(t, "flood")
+			back := rapid.IntRange(0, 2000).Draw(t, "back")
+			if c.RealEnd == "B" {
+				c.LenAB, c.LenBA = flood, back
+			} else {
+				c.LenBA, c.LenAB = flood, back
+			}
+			c.PauseEnd, c.PausePipe = c.RealEnd, rapid.SampledFrom([]int{16384, 65536}).Draw(t, "pipe")
+			c.ReadPaceUs = rapid.SampledFrom([]int{200, 500, 800}).Draw(t, "pace")
+			c.Ending = Ending{Kind: rapid.SampledFrom([]string{"flush-close-" + other, "flush-close-" + other, "drain-close-" + other, "drain-close-" + c.RealEnd}).Draw(t, "ending")}
+		} else {
+			// the QUIC end writes and finishes; sometimes the other end is slow so that data and FIN queue up
+			n := genLen(t, "len", 300000, 300000, 0) + 1
+			back := rapid.IntRange(0, 5000).Draw(t, "back")
+			if c.RealEnd == "A" {
+				c.LenAB, c.LenBA = n, back
+				c.WritesAB = genWrites(t, "writes", n, 2000)
+			} else {
+				c.LenBA, c.LenAB = n, back
+				c.WritesBA = genWrites(t, "writes", n, 2000)
+			}
+			if rapid.Bool().Draw(t, "slowOther") {
+				c.PauseEnd, c.PausePipe, c.ReadPaceUs = other, 16384, rapid.SampledFrom([]int{200, 1000}).Draw(t, "pace")
+			}
+			c.Limit = rapid.SampledFrom([]int64{0, 0, 10 * 1024 * 1024}).Draw(t, "limit")
+			c.Ending = Ending{Kind: rapid.SampledFrom([]string{"flush-close-" + c.RealEnd, "flush-close-" + c.RealEnd, "drain-close-" + c.RealEnd, "drain-close-" + other}).Draw(t, "ending")}
 		}
 		check(t, c)
 	})
